@@ -292,10 +292,12 @@ def _static_cg(
         )
         gamma = jnp.real(vdot(r, r))
 
-        info = jnp.where((gamma >= 0.0) & (gamma <= tiny) & (info != -1), 0, info)
+        # NOTE, mirror the `break`s of the eager variant: only a still running
+        # iteration (`info < -1`) may be assigned a verdict
+        info = jnp.where((gamma >= 0.0) & (gamma <= tiny) & (info < -1), 0, info)
         if resnorm is not None:
             norm = jft_norm(r, ord=norm_ord)
-            info = jnp.where((norm < resnorm) & (i >= miniter) & (info != -1), 0, info)
+            info = jnp.where((norm < resnorm) & (i >= miniter) & (info < -1), 0, info)
         else:
             norm = None
         energy = jnp.real(vdot((r - j) / 2, pos))
@@ -303,15 +305,15 @@ def _static_cg(
         neg_energy_eps = -eps * jnp.abs(energy)
         # print(f"energy increased", file=sys.stderr)
         info = jnp.where(
-            energy_diff < neg_energy_eps,
+            (energy_diff < neg_energy_eps) & (info < -1),
             jnp.where(_raise_nonposdef, -1, i),
             info,
         )
         if absdelta is not None:
             info = jnp.where(
-                (energy_diff < absdelta) & (i >= miniter) & (info != -1), 0, info
+                (energy_diff < absdelta) & (i >= miniter) & (info < -1), 0, info
             )
-        info = jnp.where((i >= maxiter) & (info != -1), i, info)
+        info = jnp.where((i >= maxiter) & (info < -1), i, info)
 
         d = d * jnp.maximum(0, gamma / previous_gamma) + r
 
